@@ -257,6 +257,9 @@ def compare_session(c, impl, mod, j):
     """model trace vs implementation outputs"""
     out = j.disagreements
     tol = Fraction(1, 10**9) * Fraction(sess_scale(c))
+    if c['cfg'].get('sched_thin'):
+        j.tags.append('model_skipped')
+        return
     if c['cfg']['alpha'][0] == 'timed':
         j.tags.append('model_skipped')
         # the session model is not used, but the rules driven by the recorded rows are: the same sizing knife edges apply
